@@ -84,6 +84,10 @@ struct NodeSt {
     stale: bool,
     responded: Vec<(u8, bool)>,
     failures: Vec<(u8, u32)>,
+    /// fast path: embeddings recorded per leader, oldest first (0 = the default embedding of a harness block,
+    /// which a leader records for its own proposals; 1 = the fixed embedding the harness attaches to AppendEntries) and blocks accepted on the fast path since the last full validation
+    fp_hist: Vec<(u8, Vec<u8>)>,
+    fp_since: u8,
     /// what the node's write-ahead log would recover (term, vote): read back from a real RaftWal
     /// with RaftRecoveryState after every transition; a crash restarts from this, not from memory
     dur: (u64, Option<u8>),
@@ -117,6 +121,10 @@ struct Sys {
     crashes_left: u8,
     /// a leader was deposed after committing (for the non-vacuity witness)
     second_leader_committed: bool,
+    /// number of explored transitions since the initial/seed state. Part of the state on purpose: the
+    /// parallel breadth-first search is not level-synchronous, and without it a state first met at the depth
+    /// bound through a longer path would never be expanded although a shorter path reaches it
+    depth: u8,
     violation: Option<String>,
 }
 
@@ -148,6 +156,9 @@ struct Cfg {
     wal: bool,
     /// start only from the scripted 'two rival candidates of one term' state (5 voters, pre-vote)
     rivals: bool,
+    /// start only from the scripted state in which a follower with a stale suffix is about to be repaired by
+    /// the leader of a later term (fast path on: the repair traffic carries block embeddings)
+    repair: bool,
 }
 
 fn name(i: u8) -> String {
@@ -158,6 +169,10 @@ fn idx(s: &str) -> u8 {
 }
 fn block(tag: u64) -> Block {
     Block::new(BlockHeader::new(tag, [0u8; 32], [0u8; 32], [0u8; 32], "p".to_string()), vec![])
+}
+/// the block embedding every AppendEntries with entries carries when the fast path is on
+fn fp_embedding() -> SparseVector {
+    SparseVector::from_dense(&[1.0, 0.5])
 }
 fn embedding(cfg: &Cfg, i: u8) -> SparseVector {
     if !cfg.tiebreak {
@@ -170,7 +185,7 @@ fn embedding(cfg: &Cfg, i: u8) -> SparseVector {
 
 impl NodeSt {
     fn initial() -> NodeSt {
-        NodeSt { term: 0, voted_for: None, log: vec![], commit: 0, last_applied: 0, role: 0, leader: None, lead: None, votes: vec![], prevotes: vec![], in_pre_vote: false, stale: false, responded: vec![], failures: vec![], dur: (0, None) }
+        NodeSt { term: 0, voted_for: None, log: vec![], commit: 0, last_applied: 0, role: 0, leader: None, lead: None, votes: vec![], prevotes: vec![], in_pre_vote: false, stale: false, responded: vec![], failures: vec![], fp_hist: vec![], fp_since: 0, dur: (0, None) }
     }
     fn to_verif(&self) -> VerifRaftState {
         VerifRaftState {
@@ -193,6 +208,8 @@ impl NodeSt {
             heartbeat_stale: self.stale,
             responded: self.responded.iter().map(|(k, v)| (name(*k), *v)).collect(),
             failures: self.failures.iter().map(|(k, v)| (name(*k), *v)).collect(),
+            fast_path_history: self.fp_hist.iter().map(|(k, h)| (name(*k), h.iter().map(|e| if *e == 1 { fp_embedding() } else { block(0).header.delta_embedding }).collect())).collect(),
+            fast_path_since_full: self.fp_since as usize,
         }
     }
     fn from_verif(v: &VerifRaftState) -> NodeSt {
@@ -219,6 +236,25 @@ impl NodeSt {
             stale: v.heartbeat_stale,
             responded: v.responded.iter().map(|(k, v)| (idx(k), *v)).collect(),
             failures: v.failures.iter().map(|(k, v)| (idx(k), *v)).collect(),
+            fp_hist: v
+                .fast_path_history
+                .iter()
+                .map(|(k, h)| {
+                    let kinds = h
+                        .iter()
+                        .map(|e| {
+                            if *e == fp_embedding() {
+                                1
+                            } else {
+                                assert!(*e == block(0).header.delta_embedding, "unexpected embedding in the fast-path history: {e:?}");
+                                0
+                            }
+                        })
+                        .collect();
+                    (idx(k), kinds)
+                })
+                .collect(),
+            fp_since: v.fast_path_since_full as u8,
             dur: (v.current_term, v.voted_for.as_deref().map(idx)),
         }
     }
@@ -312,7 +348,7 @@ fn to_real(cfg: &Cfg, e: &Env) -> Message {
             prev_log_term: *prev_term,
             entries: entries.iter().map(|(t, i, tag)| LogEntry::new(*t, *i, block(*tag))).collect(),
             leader_commit: *commit,
-            block_embedding: if cfg.fast_path { entries.last().map(|_| SparseVector::from_dense(&[1.0, 0.5])) } else { None },
+            block_embedding: if cfg.fast_path { entries.last().map(|_| fp_embedding()) } else { None },
         }),
         Msg::AER { term, success, match_index } => Message::AppendEntriesResponse(AppendEntriesResponse { term: *term, success: *success, follower_id: from, match_index: *match_index, used_fast_path: false }),
     }
@@ -449,9 +485,12 @@ impl Model for RaftModel {
     type Action = Act;
 
     fn init_states(&self) -> Vec<Sys> {
-        let init = Sys { nodes: vec![NodeSt::initial(); self.cfg.n as usize], net: BTreeSet::new(), leaders: BTreeMap::new(), committed: BTreeMap::new(), dups_left: self.cfg.dups, crashes_left: self.cfg.crashes, second_leader_committed: false, violation: None };
+        let init = Sys { nodes: vec![NodeSt::initial(); self.cfg.n as usize], net: BTreeSet::new(), leaders: BTreeMap::new(), committed: BTreeMap::new(), dups_left: self.cfg.dups, crashes_left: self.cfg.crashes, second_leader_committed: false, depth: 0, violation: None };
         if self.cfg.rivals {
             return rival_seed(self, &init).into_iter().collect();
+        }
+        if self.cfg.repair {
+            return repair_seed(self, &init).into_iter().collect();
         }
         let mut v = vec![init.clone()];
         if self.cfg.seeds {
@@ -561,6 +600,8 @@ impl Model for RaftModel {
                 n
             }
         };
+        let mut n = n;
+        n.depth = s.depth.saturating_add(1);
         Some(n)
     }
 
@@ -570,6 +611,7 @@ impl Model for RaftModel {
             Property::sometimes("a leader is elected", |_, s: &Sys| !s.leaders.is_empty()),
             Property::sometimes("an entry is committed", |_, s: &Sys| !s.committed.is_empty()),
             Property::sometimes("a rival candidate wins the contested term", |m: &RaftModel, s: &Sys| m.cfg.rivals && s.leaders.contains_key(&3)),
+            Property::sometimes("the stale follower is repaired on the fast path", |m: &RaftModel, s: &Sys| m.cfg.repair && s.nodes[0].log.len() == 3 && s.nodes[0].log[1].0 == 2 && s.nodes[0].fp_since > 0),
             Property::sometimes("a second leader commits", |_, s: &Sys| s.second_leader_committed),
         ]
     }
@@ -688,7 +730,51 @@ fn rival_seed(m: &RaftModel, init: &Sys) -> Option<Sys> {
     if std::env::var("VERIF_DEBUG").is_ok() {
         eprintln!("rival seed: n0 {:?}\n            n4 {:?}\n            net {:?}", s.nodes[0], s.nodes[4], s.net);
     }
+    s.depth = 0;
     s.violation.is_none().then_some(s)
+}
+
+/// 3 voters: n0 led term 1 and still holds a stale unreplicated term-1 entry at index 2; the term-2 entry at
+/// index 2 is committed on n1 and n2; n2 leads term 3, has appended a term-3 entry and has just sent its
+/// AppendEntries (entries attached) to both followers. Every step is a real handler call.
+fn repair_seed(m: &RaftModel, init: &Sys) -> Option<Sys> {
+    let steps: Vec<(&str, Box<dyn Fn(&Sys) -> Option<Sys> + '_>)> = vec![
+        ("elect0", Box::new(|s| elect(m, s, 0, 1))),
+        ("rt0", Box::new(|s| round_trip(m, s, 0, 1))),
+        ("propose0", Box::new(|s| m.next_state(s, Act::Propose(0)))),
+        ("rt0b", Box::new(|s| round_trip(m, s, 0, 1))),
+        ("stale-propose0", Box::new(|s| m.next_state(s, Act::Propose(0)))),
+        ("elect1", Box::new(|s| elect(m, s, 1, 2))),
+        ("rt1", Box::new(|s| round_trip(m, s, 1, 2))),
+        ("rt1b", Box::new(|s| round_trip(m, s, 1, 2))),
+        ("propose1", Box::new(|s| m.next_state(s, Act::Propose(1)))),
+        ("rt2", Box::new(|s| round_trip(m, s, 1, 2))),
+        ("rt3", Box::new(|s| round_trip(m, s, 1, 2))),
+        ("elect2", Box::new(|s| elect(m, s, 2, 1))),
+        ("clear", Box::new(|s| { let mut s = s.clone(); s.net.clear(); Some(s) })),
+        ("rt4", Box::new(|s| round_trip(m, s, 2, 1))),
+        ("propose2", Box::new(|s| m.next_state(s, Act::Propose(2)))),
+        ("clear", Box::new(|s| { let mut s = s.clone(); s.net.clear(); Some(s) })),
+        ("heartbeat2", Box::new(|s| m.next_state(s, Act::Heartbeat(2)))),
+    ];
+    let mut cur = Some(init.clone());
+    for (name, f) in &steps {
+        cur = cur.and_then(|s| f(&s));
+        if cur.is_none() {
+            if std::env::var("VERIF_DEBUG").is_ok() {
+                eprintln!("repair seed: step {name} failed");
+            }
+            return None;
+        }
+    }
+    let mut s = cur?;
+    if std::env::var("VERIF_DEBUG").is_ok() {
+        eprintln!("repair seed: n0 {:?}\n n2 {:?}\n net {:?}", s.nodes[0], s.nodes[2], s.net);
+    }
+    // the state the search is meant to start from: n0 holds a stale index-2 entry of term 1, n2 leads term 3
+    let ok = s.nodes[2].role == 2 && s.nodes[0].log.len() == 2 && s.nodes[0].log[1].0 == 1 && s.nodes[2].log.len() == 3 && s.nodes[2].log[1].0 == 2;
+    s.depth = 0;
+    (ok && s.violation.is_none()).then_some(s)
 }
 fn seeds(m: &RaftModel, init: &Sys) -> Vec<Sys> {
     let _ = run_script;
@@ -760,7 +846,7 @@ fn seeds(m: &RaftModel, init: &Sys) -> Vec<Sys> {
             out.push(s8);
         }
     }
-    out.into_iter().filter(|s| s.violation.is_none()).collect()
+    out.into_iter().filter(|s| s.violation.is_none()).map(|mut s| { s.depth = 0; s }).collect()
 }
 
 struct RunOut {
@@ -793,18 +879,22 @@ fn main() {
     rep.assume("handlers are atomic (cluster.rs runs one receive loop); in the 'on real WAL' configurations every node runs on a real RaftWal: after each transition the harness reads back what RaftRecoveryState recovers from the records the production code appended, and a crash restarts the node from that (term, vote) and its log; in the other configurations a crash keeps exactly the in-memory (term, vote, log) (byte-level WAL fidelity is C10's job)");
     rep.assume("trusted driver glue: after a successful pre-vote the synchronous start_election() discards the RequestVote it builds; the harness broadcasts that message as start_election_async would");
     let mut cfgs: Vec<(String, Cfg, usize)> = vec![];
-    let base = Cfg { n: 3, pre_vote: false, fast_path: false, tiebreak: false, max_term: 2, max_log: 2, dups: 1, crashes: 1, seeds: true, wal: false, rivals: false };
+    let base = Cfg { n: 3, pre_vote: false, fast_path: false, tiebreak: false, max_term: 2, max_log: 2, dups: 1, crashes: 1, seeds: true, wal: false, rivals: false, repair: false };
     if thorough {
         for (pv, fp, tb) in [(false, false, false), (true, false, false), (false, true, false), (false, false, true), (true, true, true)] {
             cfgs.push((format!("n3 prevote={pv} fastpath={fp} tiebreak={tb} term<=3 log<=3 dup<=2 crash<=2"), Cfg { pre_vote: pv, fast_path: fp, tiebreak: tb, max_term: 3, max_log: 3, dups: 2, crashes: 2, ..base.clone() }, 10));
         }
         cfgs.push(("n5 prevote=false term<=2 log<=1 dup<=0 crash<=1".into(), Cfg { n: 5, max_term: 2, max_log: 1, dups: 0, crashes: 1, ..base.clone() }, 9));
         cfgs.push(("n5 rival candidates of term 3 (one a deposed leader) prevote=true term<=3 log<=0".into(), Cfg { n: 5, pre_vote: true, max_term: 3, max_log: 0, dups: 0, crashes: 0, rivals: true, ..base.clone() }, 10));
+        cfgs.push(("n5 rival candidates of term 3 (one a deposed leader) prevote=false term<=3 log<=0".into(), Cfg { n: 5, pre_vote: false, max_term: 3, max_log: 0, dups: 0, crashes: 0, rivals: true, ..base.clone() }, 10));
+        cfgs.push(("n3 stale follower repaired by a later leader, fastpath=true term<=3 log<=3 dup<=3".into(), Cfg { fast_path: true, max_term: 3, max_log: 3, dups: 3, crashes: 1, repair: true, ..base.clone() }, 11));
         cfgs.push(("n3 on real WAL prevote=false term<=2 log<=2 dup<=1 crash<=2".into(), Cfg { crashes: 2, wal: true, ..base.clone() }, 10));
     } else {
         cfgs.push(("n3 prevote=false term<=3 log<=3 dup<=1 crash<=1".into(), Cfg { max_term: 3, max_log: 3, ..base.clone() }, 9));
         cfgs.push(("n3 on real WAL prevote=false term<=2 log<=1 dup<=0 crash<=1".into(), Cfg { max_log: 1, dups: 0, wal: true, ..base.clone() }, 9));
         cfgs.push(("n5 rival candidates of term 3 (one a deposed leader) prevote=true term<=3 log<=0".into(), Cfg { n: 5, pre_vote: true, max_term: 3, max_log: 0, dups: 0, crashes: 0, rivals: true, ..base.clone() }, 8));
+        cfgs.push(("n5 rival candidates of term 3 (one a deposed leader) prevote=false term<=3 log<=0".into(), Cfg { n: 5, pre_vote: false, max_term: 3, max_log: 0, dups: 0, crashes: 0, rivals: true, ..base.clone() }, 8));
+        cfgs.push(("n3 stale follower repaired by a later leader, fastpath=true term<=3 log<=3 dup<=2".into(), Cfg { fast_path: true, max_term: 3, max_log: 3, dups: 2, crashes: 0, repair: true, ..base.clone() }, 9));
         cfgs.push(("n3 prevote=true term<=2 log<=2 dup<=1 crash<=0".into(), Cfg { pre_vote: true, crashes: 0, ..base.clone() }, 10));
     }
     let only = rep.args.flag("cfg");
@@ -832,7 +922,7 @@ fn main() {
             let kind = path.last().cloned().unwrap_or_default();
             rep.violation(format!("c01:{}", violation_kind(&cfg, path)), format!("{label}: safety violated after {msg}; last action {kind}"), json!({"cfg": label, "actions": path}));
         }
-        let required: &[&str] = if cfg.rivals { &["a rival candidate wins the contested term"] } else { &["a leader is elected", "an entry is committed"] };
+        let required: &[&str] = if cfg.rivals { &["a rival candidate wins the contested term"] } else if cfg.repair { &["the stale follower is repaired on the fast path"] } else { &["a leader is elected", "an entry is committed"] };
         for w in required.iter().copied() {
             if !r.discoveries.contains_key(w) && !r.discoveries.contains_key("safe") {
                 rep.machinery(format!("{label}: no witness for '{w}' (vacuous search)"));
@@ -841,7 +931,7 @@ fn main() {
         if rep.coverage.get("samples").is_none() {
             if let Some(p) = r.discoveries.get("an entry is committed") {
                 rep.sample(json!({"cfg": label, "witness_path_entry_committed": p}));
-            } else if let Some(p) = r.discoveries.get("a rival candidate wins the contested term") {
+            } else if let Some(p) = r.discoveries.get("a rival candidate wins the contested term").or_else(|| r.discoveries.get("the stale follower is repaired on the fast path")) {
                 rep.sample(json!({"cfg": label, "witness_path_rival_wins": p}));
             }
         }
